@@ -24,9 +24,26 @@ import GripProofs.Lemmas.C11
 import GripProofs.Lemmas.C11Json
 import GripProofs.Lemmas.C11Resume
 import GripProofs.Lemmas.C11Store
+import GripGen.C11Fields
 
 namespace Grip.Props.C11
 open Grip Grip.C11 Grip.C11.Store
+
+/-! ### the model's JSON keys and JobMatch bound are those of today's source -/
+
+/-- **traveler_json_matches_source.** The keys `marshal` writes are the exported fields of
+    `gdbi.BaseTraveler`, `DataElement`, `DataElementID`, `Aggregate` as regenerated from
+    gdbi/interface.go on this run (a new, renamed, `json:"-"`-tagged or removed field breaks this). -/
+theorem traveler_json_matches_source :
+    objKeys (marshal {}) = GripGen.C11Fields.traveler ∧
+    objKeys (marshalElem {}) = GripGen.C11Fields.element ∧
+    objKeys (marshalPathEl .empty) = GripGen.C11Fields.elementId ∧
+    objKeys (marshalAgg default) = GripGen.C11Fields.aggregate := by decide
+
+/-- **jobMatch_bound_matches_source.** `jobMatch` uses the bound of `JobMatch`'s final test as
+    regenerated from jobstorage/query_checksum.go. -/
+theorem jobMatch_bound_matches_source {κ : Type} [DecidableEq κ] (q j : List κ) :
+    jobMatch q j = jobMatchN GripGen.C11Fields.jobMatchMoreThan q j := rfl
 
 /-! ### the spool round trip -/
 
@@ -158,7 +175,7 @@ theorem resume_eq_concat {κ : Type} (numOf : String → Option Int) (g : AGraph
 /-- `JobMatch` on checksum lists: the job is a prefix of the query and has at least two steps. -/
 theorem jobMatch_prefix {κ : Type} [DecidableEq κ] (q j : List κ) :
     jobMatch q j = true ↔ (j <+: q ∧ 2 ≤ j.length) := by
-  unfold jobMatch
+  unfold jobMatch jobMatchN
   by_cases h : j.length > q.length
   · simp only [h, if_true]
     constructor
